@@ -25,7 +25,8 @@ auto gemv_n(Context ctxt, typename MIt::element a, MIt m_first, Size count, XIt 
 	assert( y_first.stride() != 0 );  // BLAS generally doesn't support stride zero
 
 	if constexpr(! is_conjugated<MIt>::value) {
-		if     (m_first .stride()==1)   {ctxt->gemv('N', count, (*m_first).size(), &a, m_first.base()            , (*m_first).stride(), x_first.base(), x_first.stride(), &b, y_first.base(), y_first.stride());}
+		// when both strides are 1 (a matrix with a single column or a single row) pick the form whose leading dimension is valid for BLAS (lda >= max(1, m))
+		if     (m_first .stride()==1 && ((*m_first).stride() >= count || (*m_first).stride()!=1)) {ctxt->gemv('N', count, (*m_first).size(), &a, m_first.base()            , (*m_first).stride(), x_first.base(), x_first.stride(), &b, y_first.base(), y_first.stride());}
 		else if((*m_first).stride()==1) {ctxt->gemv('T', (*m_first).size(), count, &a, m_first.base()            ,   m_first .stride(), x_first.base(), x_first.stride(), &b, y_first.base(), y_first.stride());}
 		else                           {assert(0); /*throw gemv_stride_error{"not BLAS-implemented"};*/}  // LCOV_EXCL_LINE
 	} else {
